@@ -469,18 +469,19 @@ def rule_S5(sc, rep):
     # the result: Some(left half of the second cut) (through from_utf8_unchecked for the str scanner), else None
     if len(cuts) == 2:
         pat = cuts[1][1]["pat"]
-        left = pat["pats"][0].get("name") if pat.get("k") == "ptuple" else None
+        left = pat["pats"][0].get("id") if pat.get("k") == "ptuple" else None
         somes = [n for n in hir.walk(b["hir"]) if n.get("k") == "call" and n.get("ctor", "").endswith("Option::Some")]
         ok = len(somes) == 1 and left is not None
         if ok:
             v = hir.simp(somes[0]["args"][0])
-            if v.get("k") == "local" and v["name"] == left:
-                # may be the shadowing `let printable = unsafe { from_utf8_unchecked(printable, ..) }`
-                shadow = [n for n in hir.walk(b["hir"]) if n.get("k") == "let" and n["pat"].get("name") == left and
-                          n is not cuts[1][1] and "init" in n]
-                for sh in shadow:
-                    calls = [x for x in hir.walk(sh["init"]) if hir.is_call(x, MOD + "from_utf8_unchecked")]
-                    ok = ok and len(calls) == 1 and hir.is_local(calls[0]["args"][0], left)
-            else:
+            if v.get("k") != "local":
                 ok = False
+            elif v.get("id") != left:
+                # `let piece = unsafe { from_utf8_unchecked(<left half>, ..) }` (the str scanner), whatever the binding is called
+                binds = [n for n in hir.walk(b["hir"]) if n.get("k") == "let" and n["pat"].get("k") == "pbind" and n["pat"].get("id") == v.get("id") and "init" in n]
+                ok = len(binds) == 1
+                for sh in binds:
+                    calls = [x for x in hir.walk(sh["init"]) if hir.is_call(x, MOD + "from_utf8_unchecked")]
+                    a = hir.peel(calls[0]["args"][0]) if len(calls) == 1 else {}
+                    ok = ok and len(calls) == 1 and a.get("k") == "local" and a.get("id") == left
         rep.check(ok, "S5", b["path"], "result-is-left-half", "the yielded piece is the left half of the second cut (kept run)", loc(b))
